@@ -77,7 +77,7 @@ Proof.
   destruct m as [|kv m]; [contradiction|]. destruct (json_pairs_hd kv m) as [t Ht].
   cbn [app]. rewrite <- app_assoc. cbn [app]. rewrite Ht. cbn [app]. unfold json_dec. cbn [N.eqb Pos.eqb].
   change (34%N :: t ++ 125%N :: repeat 10%N n) with ((34%N :: t) ++ 125%N :: repeat 10%N n). rewrite <- Ht.
-  apply json_dec_pairs_ok; auto; [discriminate | apply all_newlines_repeat |].
+  apply json_dec_pairs_ok; [exact Hne | exact Hs | apply all_newlines_repeat |].
   pose proof (json_pairs_length (kv :: m)). cbn [length] in *. rewrite !app_length. cbn [length]. lia.
 Qed.
 
@@ -93,11 +93,16 @@ Qed.
 Lemma xor_at_length : forall key l j, length (xor_at key j l) = length l.
 Proof. intros key. induction l; intros j; simpl; auto. Qed.
 
+Lemma firstn_app_len : forall {A} n (a b : list A), length a = n -> firstn n (a ++ b) = a.
+Proof. intros A n a b <-. apply firstn_app_exact. Qed.
+Lemma skipn_app_len : forall {A} n (a b : list A), length a = n -> skipn n (a ++ b) = b.
+Proof. intros A n a b <-. apply skipn_app_exact. Qed.
+
 Lemma obfuscate_invol : forall key d, 32 <= length d -> obfuscate key (obfuscate key d) = d.
 Proof.
   intros key d H. unfold obfuscate.
   assert (Hl : length (firstn 32 d) = 32) by (rewrite firstn_length; lia).
-  rewrite <- Hl at 1 3. rewrite firstn_app_exact, skipn_app_exact, xor_at_invol. apply firstn_skipn.
+  rewrite (firstn_app_len 32 _ _ Hl), (skipn_app_len 32 _ _ Hl), xor_at_invol. apply firstn_skipn.
 Qed.
 Lemma obfuscate_length : forall key d, length (obfuscate key d) = length d.
 Proof.
@@ -107,7 +112,7 @@ Lemma obfuscate_firstn : forall key d, 32 <= length d -> firstn 32 (obfuscate ke
 Proof.
   intros key d H. unfold obfuscate.
   assert (Hl : length (firstn 32 d) = 32) by (rewrite firstn_length; lia).
-  rewrite <- Hl at 1. apply firstn_app_exact.
+  apply (firstn_app_len 32 _ _ Hl).
 Qed.
 
 (** ---- the 256-bit fork index ---- *)
@@ -115,8 +120,8 @@ Lemma index_byte_testbit : forall keys j b acc, (b < 8)%N ->
   N.testbit (fold_left (fun acc k => if (k / 8 =? j)%N then N.lor acc (N.shiftl 1 (k mod 8)) else acc) keys acc) b =
   N.testbit acc b || existsb (fun k => (k / 8 =? j)%N && (k mod 8 =? b)%N) keys.
 Proof.
-  induction keys as [|k keys IH]; intros j b acc Hb; simpl; [now rewrite orb_false_r|].
-  rewrite IH by assumption. destruct (k / 8 =? j)%N; simpl; [|reflexivity].
+  induction keys as [|k keys IH]; intros j b acc Hb; cbn [fold_left existsb]; [now rewrite orb_false_r|].
+  rewrite IH by assumption. destruct (k / 8 =? j)%N; cbn [andb]; [|reflexivity].
   rewrite N.lor_spec, N.shiftl_1_l, N.pow2_bits_eqb. now rewrite orb_assoc.
 Qed.
 
@@ -130,7 +135,7 @@ Proof.
   unfold index_byte. rewrite index_byte_testbit.
   2:{ pose proof (Nat.mod_upper_bound i 8). lia. }
   cbn [N.testbit orb]. replace (N.testbit 0 (N.of_nat (i mod 8))) with false by (symmetry; apply N.bits_0).
-  cbn [orb]. clear Hi8. induction keys as [|k keys IH]; simpl; [reflexivity|]. rewrite IH. f_equal.
+  cbn [orb]. clear Hi8. induction keys as [|k keys IH]; cbn [existsb]; [reflexivity|]. rewrite IH. f_equal.
   destruct (k =? N.of_nat i)%N eqn:E.
   - apply N.eqb_eq in E. subst k. apply andb_true_iff. split; apply N.eqb_eq.
     + change 8%N with (N.of_nat 8). now rewrite <- Nat2N.inj_div.
@@ -149,15 +154,15 @@ Lemma filter_sorted_range : forall n a (ks : list nat),
 Proof.
   induction n as [|n IH]; intros a ks Hs Hr.
   - destruct ks as [|k ks]; [reflexivity|]. inversion Hr; subst. lia.
-  - cbn [seq filter]. destruct ks as [|k ks].
-    + cbn [existsb]. rewrite (IH (S a) []); [reflexivity | constructor | constructor].
-    + inversion Hs as [|? ? Hs' Hall]; subst. inversion Hr as [|? ? Hk Hr']; subst.
+  - destruct ks as [|k ks].
+    + clear. generalize (seq a (S n)). intros l. induction l; simpl; auto.
+    + cbn [seq filter]. inversion Hs as [|? ? Hs' Hall]; subst. inversion Hr as [|? ? Hk Hr']; subst.
       cbn [existsb]. destruct (Nat.eqb a k) eqn:E.
       * apply Nat.eqb_eq in E. subst k. cbn [orb]. f_equal.
-        rewrite <- (IH (S a) ks Hs') at 2.
+        transitivity (filter (fun i => existsb (Nat.eqb i) ks) (seq (S a) n)).
         -- apply filter_ext_in. intros i Hi. apply in_seq in Hi.
            destruct (Nat.eqb i a) eqn:E2; [apply Nat.eqb_eq in E2; lia | reflexivity].
-        -- rewrite Forall_forall in *. intros x Hx. specialize (Hall x Hx). specialize (Hr' x Hx). lia.
+        -- apply (IH (S a) ks Hs'). rewrite Forall_forall in *. intros x Hx. specialize (Hall x Hx). specialize (Hr' x Hx). lia.
       * apply Nat.eqb_neq in E. cbn [orb].
         assert (Hna : existsb (Nat.eqb a) ks = false).
         { apply not_true_is_false. intros H. apply existsb_exists in H as [x [Hx Hax]]. apply Nat.eqb_eq in Hax. subst x.
@@ -184,3 +189,270 @@ Qed.
 
 Lemma index_of_length : forall keys, length (index_of keys) = 32.
 Proof. intros. unfold index_of. now rewrite map_length, seq_length. Qed.
+
+(** ---- one fork ---- *)
+(** what [UnmarshalBinary] leaves of a child: node type, reference, metadata *)
+Definition stub (c : node) : node := Node (n_ty c) 0 [] (n_ref c) [] (n_md c) None.
+
+(** a child as [MarshalBinary] needs it: saved (it has a reference of the node's reference size),
+    metadata flag consistent, metadata encodable *)
+Definition child_ok (rbs : nat) (c : node) : Prop :=
+  (exists r, n_ref c = Some r /\ length r = rbs) /\
+  (is_withmeta (n_ty c) = true <-> n_md c <> []) /\ md_ok (n_md c).
+
+Lemma firstn_repeat_le : forall {A} (x : A) k n, k <= n -> firstn k (repeat x n) = repeat x k.
+Proof.
+  intros A x. induction k as [|k IH]; intros n H; [reflexivity|].
+  destruct n as [|n]; [lia|]. simpl. f_equal. apply IH. lia.
+Qed.
+
+Lemma pad_to_short : forall n l, length l <= n -> pad_to n l = l ++ repeat 0%N (n - length l).
+Proof.
+  intros n l H. unfold pad_to. rewrite firstn_app. rewrite firstn_all2 by assumption. f_equal.
+  apply firstn_repeat_le. lia.
+Qed.
+
+Lemma nth_app_exact : forall {A} (a : list A) x b d, nth (length a) (a ++ x :: b) d = x.
+Proof. intros A a x b d. rewrite app_nth2 by lia. now rewrite Nat.sub_diag. Qed.
+Lemma skipn_app_plus : forall {A} (a b : list A) n, skipn (length a + n) (a ++ b) = skipn n b.
+Proof. intros A a b n. induction a; simpl; auto. Qed.
+
+Lemma un_be16_be16 : forall n, n < 256 * 256 -> un_be16 (be16 n) = n.
+Proof.
+  intros n H. unfold be16, un_be16. rewrite !Nat2N.id.
+  rewrite (Nat.mod_small (n / 256) 256) by (apply Nat.div_lt_upper_bound; lia).
+  pose proof (Nat.div_mod n 256). lia.
+Qed.
+
+Lemma fork_bytes_shape : forall rbs prefix c, child_ok rbs c -> rbs <= 256 -> length prefix <= 30 ->
+  exists r tail, n_ref c = Some r /\ length r = rbs /\
+    fork_bytes prefix c = Ok ([n_ty c; N.of_nat (length prefix)] ++ pad_to 30 prefix ++ r ++ tail) /\
+    (if is_withmeta (n_ty c)
+     then exists j, tail = be16 (length j) ++ j /\ j = pad_json (json_enc (n_md c)) /\ length j < 256 * 256 /\ 0 < length j
+     else tail = [] /\ n_md c = []).
+Proof.
+  intros rbs prefix c [[r [Hr Hrl]] [Hwm [Hsafe Hsz]]] Hrbs Hpl.
+  unfold fork_bytes. rewrite Hr.
+  assert (H256 : (256 <? length r) = false) by (apply Nat.ltb_ge; lia). rewrite H256.
+  rewrite (Nat.mod_small (length prefix) 256) by lia.
+  destruct (is_withmeta (n_ty c)) eqn:Hw.
+  - assert (Hne : n_md c <> []) by (apply Hwm; reflexivity).
+    rewrite Hsafe. cbn [negb orb].
+    assert (Hl0 : (length (n_md c) =? 0) = false) by (apply Nat.eqb_neq; destruct (n_md c); [contradiction | discriminate]).
+    rewrite Hl0.
+    assert (Hj : (65535 <? N.of_nat (length (pad_json (json_enc (n_md c)))))%N = false) by (apply N.ltb_ge; exact Hsz).
+    rewrite Hj. exists r, (be16 (length (pad_json (json_enc (n_md c)))) ++ pad_json (json_enc (n_md c))).
+    split; [reflexivity|]. split; [exact Hrl|]. split; [now rewrite <- !app_assoc|].
+    eexists. split; [reflexivity|]. split; [reflexivity|]. split; [lia | apply pad_json_nonempty].
+  - exists r, []. split; [reflexivity|]. split; [exact Hrl|]. split; [now rewrite app_nil_r|].
+    split; [reflexivity|]. destruct (n_md c) eqn:E; [reflexivity|].
+    assert (H : false = true) by (apply Hwm; discriminate). discriminate H.
+Qed.
+
+Lemma skipn_2_cons : forall {A} (a b : A) l, skipn 2 (a :: b :: l) = l.
+Proof. reflexivity. Qed.
+
+Lemma fork_from_ok : forall rbs prefix c r tail v02meta msz,
+  prefix <> [] -> length prefix <= 30 -> n_ref c = Some r -> length r = rbs ->
+  (v02meta = true -> (0 <? msz) = true -> json_dec (skipn 2 tail) = Some (n_md c)) ->
+  (v02meta = true -> (0 <? msz) = false -> n_md c = []) ->
+  (v02meta = false -> tail = [] /\ n_md c = []) ->
+  fork_from ([n_ty c; N.of_nat (length prefix)] ++ pad_to 30 prefix ++ r ++ tail) rbs msz v02meta = Ok (prefix, stub c).
+Proof.
+  intros rbs prefix c r tail v02meta msz Hne Hpl Hr Hrl Hm1 Hm2 Hm3. unfold fork_from.
+  cbn [app nth]. rewrite Nat2N.id.
+  assert (H0 : (length prefix =? 0) = false) by (apply Nat.eqb_neq; destruct prefix; [contradiction | discriminate]).
+  assert (H30 : (30 <? length prefix) = false) by (apply Nat.ltb_ge; lia).
+  rewrite H0, H30. cbn [orb]. rewrite skipn_2_cons.
+  rewrite (pad_to_short 30 prefix Hpl). rewrite <- app_assoc. rewrite firstn_app_exact.
+  assert (Hsk : skipn 32 (n_ty c :: N.of_nat (length prefix) :: prefix ++ repeat 0%N (30 - length prefix) ++ r ++ tail) = r ++ tail).
+  { change (n_ty c :: N.of_nat (length prefix) :: prefix ++ repeat 0%N (30 - length prefix) ++ r ++ tail)
+      with ([n_ty c; N.of_nat (length prefix)] ++ prefix ++ repeat 0%N (30 - length prefix) ++ r ++ tail).
+    rewrite !app_assoc. rewrite <- (app_assoc _ r tail). apply skipn_app_len.
+    rewrite !app_length, repeat_length. cbn [length]. lia. }
+  unfold stub. rewrite Hr. rewrite Hsk.
+  destruct v02meta.
+  - assert (Hsk2 : skipn (32 + rbs + 2) (n_ty c :: N.of_nat (length prefix) :: prefix ++ repeat 0%N (30 - length prefix) ++ r ++ tail) = skipn 2 tail).
+    { replace (32 + rbs + 2) with (32 + (rbs + 2)) by lia. rewrite <- skipn_skipn.
+      rewrite Hsk. rewrite <- Hrl. apply skipn_app_plus. }
+    rewrite (firstn_app_len rbs r tail Hrl).
+    cbn [andb]. destruct (0 <? msz) eqn:Hz.
+    + rewrite Hsk2, (Hm1 eq_refl eq_refl). reflexivity.
+    + rewrite (Hm2 eq_refl eq_refl). reflexivity.
+  - destruct (Hm3 eq_refl) as [-> Hmd]. rewrite app_nil_r. cbn [andb]. rewrite Hmd. reflexivity.
+Qed.
+
+Lemma slice_mid : forall (pre b rest : list N), slice (pre ++ b ++ rest) (length pre) (length pre + length b) = Some b.
+Proof.
+  intros pre b rest. unfold slice.
+  assert (H1 : (length pre <=? length pre + length b) = true) by (apply Nat.leb_le; lia).
+  assert (H2 : (length pre + length b <=? length (pre ++ b ++ rest)) = true) by (apply Nat.leb_le; rewrite !app_length; lia).
+  rewrite H1, H2. cbn [andb]. f_equal. rewrite skipn_app_exact.
+  replace (length pre + length b - length pre) with (length b) by lia. apply firstn_app_exact.
+Qed.
+
+Lemma parse_fork_ok : forall rbs pre prefix c rest b k,
+  child_ok rbs c -> rbs <= 255 -> fork_ok k prefix -> fork_bytes prefix c = Ok b ->
+  parse_fork true (pre ++ b ++ rest) rbs (length pre) = Ok ((prefix, stub c), length pre + length b).
+Proof.
+  intros rbs pre prefix c rest b k Hc Hrbs [Hne [Hhd [Hl30 [Hk Hby]]]] Hfb.
+  destruct (fork_bytes_shape rbs prefix c Hc ltac:(lia) Hl30) as [r [tail [Hr [Hrl [Hshape Htail]]]]].
+  rewrite Hshape in Hfb. injection Hfb as Hb.
+  assert (Hlen : length b = 32 + rbs + length tail).
+  { rewrite <- Hb. cbn [app length]. rewrite !app_length, pad_to_length. lia. }
+  assert (Hnth : nth (length pre) (pre ++ b ++ rest) 0%N = n_ty c).
+  { rewrite <- Hb. cbn [app]. apply nth_app_exact. }
+  assert (Hskip : skipn (length pre + (32 + rbs)) (pre ++ b ++ rest) = tail ++ rest).
+  { rewrite skipn_app_plus.
+    assert (Hb' : b = (n_ty c :: N.of_nat (length prefix) :: pad_to 30 prefix ++ r) ++ tail).
+    { rewrite <- Hb. cbn [app]. now rewrite <- app_assoc. }
+    rewrite Hb', <- app_assoc. apply skipn_app_len. cbn [length]. rewrite app_length, pad_to_length. lia. }
+  unfold parse_fork.
+  assert (E1 : (length (pre ++ b ++ rest) <? length pre + 1) = false) by (apply Nat.ltb_ge; rewrite !app_length; lia).
+  rewrite E1, Hnth.
+  destruct (is_withmeta (n_ty c)) eqn:Hw.
+  - destruct Htail as [j [Htl [Hj [Hjl Hj0]]]].
+    assert (E2 : (length (pre ++ b ++ rest) <? length pre + 32 + rbs + 2) = false).
+    { apply Nat.ltb_ge. rewrite !app_length, Hlen, Htl, app_length. unfold be16. cbn [length]. lia. }
+    rewrite E2. rewrite Hskip. rewrite Htl. rewrite <- app_assoc.
+    assert (Hbe : firstn 2 (be16 (length j) ++ j ++ rest) = be16 (length j)) by reflexivity.
+    rewrite Hbe, (un_be16_be16 _ Hjl).
+    replace (length pre + (32 + rbs + 2 + length j)) with (length pre + length b).
+    2:{ rewrite Hlen, Htl, app_length. unfold be16. cbn [length]. lia. }
+    rewrite slice_mid.
+    assert (Hff : fork_from b rbs (length j) true = Ok (prefix, stub c)).
+    { rewrite <- Hb. apply (fork_from_ok rbs prefix c r tail true (length j)); auto.
+      + intros _ _. rewrite Htl. unfold be16. cbn [app]. rewrite skipn_2_cons. rewrite Hj.
+        destruct Hc as [_ [Hwm [Hsafe _]]]. apply json_roundtrip; [apply Hwm; exact Hw | exact Hsafe].
+      + intros _ Hz. apply Nat.ltb_ge in Hz. lia.
+      + intros H; discriminate H. }
+    rewrite Hff. reflexivity.
+  - destruct Htail as [Htl Hmd].
+    assert (E2 : (length (pre ++ b ++ rest) <? length pre + 32 + rbs) = false).
+    { apply Nat.ltb_ge. rewrite !app_length, Hlen. lia. }
+    rewrite E2.
+    replace (length pre + (32 + rbs)) with (length pre + length b) by (rewrite Hlen, Htl; cbn [length]; lia).
+    rewrite slice_mid.
+    assert (Hff : fork_from b rbs 0 false = Ok (prefix, stub c)).
+    { rewrite <- Hb. apply (fork_from_ok rbs prefix c r tail false 0); auto; try (intros H; discriminate H). }
+    rewrite Hff. reflexivity.
+Qed.
+
+(** all forks: the keys come from the index, the offset runs over the concatenated fork bytes *)
+Definition stub_fork (kf : N * (list N * node)) : N * (list N * node) :=
+  (fst kf, (fst (snd kf), stub (snd (snd kf)))).
+
+Lemma parse_forks_ok : forall rbs fs pre rest acc fb,
+  rbs <= 255 ->
+  Forall (fun kf => fork_ok (fst kf) (fst (snd kf)) /\ child_ok rbs (snd (snd kf))) fs ->
+  forks_bytes fs = Ok fb ->
+  parse_forks true (pre ++ fb ++ rest) rbs (map (fun kf => N.to_nat (fst kf)) fs) (length pre) acc =
+  (acc ++ map stub_fork fs, None).
+Proof.
+  intros rbs fs. induction fs as [|[k [prefix c]] fs IH]; intros pre rest acc fb Hrbs Hall Hfb.
+  - cbn [map parse_forks]. now rewrite app_nil_r.
+  - inversion Hall as [|? ? [Hfk Hck] Hall']; subst. cbn [fst snd] in *.
+    cbn [forks_bytes] in Hfb. destruct (fork_bytes prefix c) as [b|e] eqn:Hb; [|discriminate].
+    destruct (forks_bytes fs) as [bs|e] eqn:Hbs; [|discriminate]. inversion Hfb; subst fb. clear Hfb.
+    cbn [map parse_forks fst]. rewrite <- app_assoc.
+    rewrite (parse_fork_ok rbs pre prefix c (bs ++ rest) b k Hck Hrbs Hfk Hb).
+    replace (pre ++ b ++ bs ++ rest) with ((pre ++ b) ++ bs ++ rest) by now rewrite <- app_assoc.
+    replace (length pre + length b) with (length (pre ++ b)) by now rewrite app_length.
+    rewrite (IH (pre ++ b) rest (acc ++ [(N.of_nat (N.to_nat k), (prefix, stub c))]) bs Hrbs Hall' eq_refl).
+    rewrite N2Nat.id. rewrite <- app_assoc. reflexivity.
+Qed.
+
+Lemma forks_bytes_ok : forall rbs fs, rbs <= 255 ->
+  Forall (fun kf => fork_ok (fst kf) (fst (snd kf)) /\ child_ok rbs (snd (snd kf))) fs ->
+  exists fb, forks_bytes fs = Ok fb.
+Proof.
+  intros rbs fs Hrbs. induction fs as [|[k [prefix c]] fs IH]; intros Hall; [now exists []|].
+  inversion Hall as [|? ? [[Hne [Hhd [Hl30 _]]] Hck] Hall']; subst. cbn [fst snd] in *.
+  destruct (fork_bytes_shape rbs prefix c Hck ltac:(lia) Hl30) as [r [tail [_ [_ [Hshape _]]]]].
+  destruct (IH Hall') as [fb Hfb]. cbn [forks_bytes]. rewrite Hshape, Hfb. eauto.
+Qed.
+
+Lemma slice_mid' : forall (pre b rest : list N) a e, a = length pre -> e = a + length b ->
+  slice (pre ++ b ++ rest) a e = Some b.
+Proof. intros pre b rest a e -> ->. apply slice_mid. Qed.
+
+(** ---- the whole node ---- *)
+Definition eff_key (kg : list N) (n : node) : list N := if (length (n_okey n) =? 0) then kg else n_okey n.
+
+(** the receiver after [UnmarshalBinary] of the bytes of [n] *)
+Definition unmarshalled (kg : list N) (n : node) (fs : forks_t) (m : node) : node :=
+  let m2 := set_entry (set_okey m (eff_key kg n)) (pad_to (n_rbs n) (n_entry n)) in
+  let m3 := if negb (list_eqb_N (index_of (map fst fs)) (repeat 0%N 32)) && negb (is_edge (n_ty m2))
+            then set_ty m2 (mk_edge (n_ty m2)) else m2 in
+  set_forks m3 (Some (map stub_fork fs)).
+
+Lemma v02_not_v01 : list_eqb_N v02hash v01hash = false.
+Proof. vm_compute. reflexivity. Qed.
+
+Lemma marshal_unmarshal : forall kg n fs,
+  n_forks n = Some fs -> keys_sorted fs -> n_rbs n <= 255 -> length (eff_key kg n) = 32 ->
+  Forall (fun kf => fork_ok (fst kf) (fst (snd kf)) /\ child_ok (n_rbs n) (snd (snd kf))) fs ->
+  exists bytes,
+    marshal kg n = (if (length (n_okey n) =? 0) then set_okey n kg else n, Ok bytes) /\
+    forall m, unmarshal m bytes = (unmarshalled kg n fs m, None).
+Proof.
+  intros kg n fs Hfs Hs Hrbs Hkey Hall.
+  destruct (forks_bytes_ok (n_rbs n) fs Hrbs Hall) as [fb Hfb].
+  remember (eff_key kg n) as K eqn:HK.
+  remember (pad_to (n_rbs n) (n_entry n)) as E eqn:HE.
+  remember (index_of (map fst fs)) as I eqn:HI.
+  assert (HEl : length E = n_rbs n) by (subst E; apply pad_to_length).
+  assert (HIl : length I = 32) by (subst I; apply index_of_length).
+  assert (HVl : length v02hash = 31) by reflexivity.
+  set (Rb := N.of_nat (n_rbs n mod 256)).
+  set (body := K ++ v02hash ++ [Rb] ++ E ++ I ++ fb).
+  assert (Hm : marshal kg n = (if (length (n_okey n) =? 0) then set_okey n kg else n, Ok (obfuscate K body))).
+  { unfold marshal. rewrite Hfs.
+    assert (Hk1 : n_okey (if length (n_okey n) =? 0 then set_okey n kg else n) = K).
+    { subst K. unfold eff_key. destruct (length (n_okey n) =? 0); reflexivity. }
+    rewrite Hk1. rewrite Hfb. rewrite <- HE, <- HI.
+    rewrite (pad_to_short 32 K) by lia. rewrite Hkey, Nat.sub_diag. cbn [repeat]. rewrite app_nil_r.
+    subst body Rb. now rewrite <- !app_assoc. }
+  exists (obfuscate K body). split; [exact Hm|]. intros m.
+  assert (Hbl : 64 <= length body).
+  { subst body. rewrite !app_length. cbn [length]. lia. }
+  unfold unmarshal. rewrite obfuscate_length.
+  assert (E64 : (length body <? 64) = false) by (apply Nat.ltb_ge; exact Hbl). rewrite E64.
+  rewrite obfuscate_firstn by lia.
+  assert (HfK : firstn 32 body = K) by (subst body; now apply firstn_app_len).
+  rewrite HfK. rewrite obfuscate_invol by lia.
+  assert (Hvh : firstn 31 (skipn 32 body) = v02hash).
+  { subst body. rewrite (skipn_app_len 32 K _ Hkey). now apply firstn_app_len. }
+  rewrite Hvh, v02_not_v01, list_eqb_N_refl. cbn [orb negb].
+  assert (H63 : nth 63 body 0%N = Rb).
+  { subst body. rewrite app_assoc. cbn [app].
+    assert (H63' : 63 = length (K ++ v02hash)) by (rewrite app_length; lia).
+    rewrite H63' at 1. apply nth_app_exact. }
+  rewrite H63. subst Rb. rewrite Nat2N.id, (Nat.mod_small (n_rbs n) 256) by lia.
+  assert (Hs1 : slice body 64 (64 + n_rbs n) = Some E).
+  { assert (Hb : body = (K ++ v02hash ++ [N.of_nat (n_rbs n mod 256)]) ++ E ++ I ++ fb)
+      by (subst body; now rewrite <- !app_assoc).
+    rewrite Hb. apply slice_mid'; [rewrite !app_length; cbn [length]; lia | lia]. }
+  rewrite Hs1.
+  assert (Hs2 : slice body (64 + n_rbs n) (64 + n_rbs n + 32) = Some I).
+  { assert (Hb : body = (K ++ v02hash ++ [N.of_nat (n_rbs n mod 256)] ++ E) ++ I ++ fb)
+      by (subst body; now rewrite <- !app_assoc).
+    rewrite Hb. apply slice_mid'; [rewrite !app_length; cbn [length]; lia | lia]. }
+  rewrite Hs2.
+  assert (Hik : index_keys I = map (fun kf => N.to_nat (fst kf)) fs).
+  { subst I. rewrite index_roundtrip.
+    - now rewrite map_map.
+    - exact Hs.
+    - rewrite Forall_forall in *. intros k Hk. apply in_map_iff in Hk as [kf [<- Hin]].
+      destruct (Hall kf Hin) as [[_ [_ [_ [Hlt _]]]] _]. exact Hlt. }
+  rewrite Hik.
+  assert (Hpf : parse_forks true body (n_rbs n) (map (fun kf => N.to_nat (fst kf)) fs) (64 + n_rbs n + 32) [] =
+                (map stub_fork fs, None)).
+  { assert (Hb : body = (K ++ v02hash ++ [N.of_nat (n_rbs n mod 256)] ++ E ++ I) ++ fb ++ [])
+      by (subst body; rewrite app_nil_r; now rewrite <- !app_assoc).
+    rewrite Hb.
+    assert (Hoff : 64 + n_rbs n + 32 = length (K ++ v02hash ++ [N.of_nat (n_rbs n mod 256)] ++ E ++ I)) by (rewrite !app_length; cbn [length]; lia).
+    rewrite Hoff.
+    rewrite (parse_forks_ok (n_rbs n) fs _ [] [] fb Hrbs Hall Hfb). reflexivity. }
+  rewrite Hpf. unfold unmarshalled. rewrite <- HK, <- HE, <- HI. reflexivity.
+Qed.
